@@ -4,7 +4,7 @@
    The theorems of this file hold over EVERY commutative ring (in particular Qc, where the model runs, and R),
    for every size and every number of likelihoods; the part that needs an inverse (offset = posterior mean,
    G G^T = posterior covariance, independence of the current state) is in Props/C06_mc.v (mathcomp). *)
-From CV Require Import Base.Tac Base.LinAlg Base.Cmp Base.QcLin Model.C06_RTO
+From CV Require Import Base.Tac Base.LinAlg Base.Cmp Base.QcLin Model.C06_RTO Model.C06_FD Proofs.C06_FD
                        Proofs.C06_Lin Proofs.C06_Forms Proofs.C06_UGLA Proofs.C06_History.
 From Coq Require Import Ring QArith Qcanon.
 
@@ -156,6 +156,30 @@ Theorem C06_stale_sampler_adjoint :
   dot r0 radd rmul (stale_M_fwd R r0 radd rmul captured pr x) y
   = dot r0 radd rmul x (stale_M_adj R r0 radd rmul Flag2Live n captured live pr y).
 Proof. exact (stale_adjoint_live_guarded R r0 r1 radd rmul rsub ropp Rth). Qed.
+(* UGLA with the LMRF prior's DOCUMENTED difference operator, built by the model (FirstOrderFiniteDifference, zero /
+   neumann / periodic boundary; 1-d on N nodes and 2-d on N x N pixels = vstack([kron(I,D), kron(D,I)])): the operator is well
+   shaped for every N, so the local-Gaussian theorem holds with weights certified as sw^4 ((D (x_k - loc))_i^2 + beta) = 1,
+   i.e. w_i = 1/sqrt((D (x_k - loc))_i^2 + beta), over the rows of exactly that operator -- in 2-d as in 1-d. *)
+Theorem C06_lmrf_diff_op_wf : forall (two_d : bool) (b : bc_kind) (N : nat),
+  wf_mat (if two_d then N * N else N)%nat (lmrf_diff_op R r0 r1 rmul ropp two_d b N) /\
+  length (lmrf_diff_op R r0 r1 rmul ropp two_d b N)
+  = (if two_d then N * fd1_rows b N + fd1_rows b N * N else fd1_rows b N)%nat.
+Proof. intros. split; [apply lmrf_diff_op_wf | apply lmrf_diff_op_rows]. Qed.
+
+Theorem C06_ugla_local_gaussian_lmrf :
+  forall (two_d : bool) (b : bc_kind) (N : nat) (M : lmodel R) (L1 : list (list R)) (data loc : list R) (rs : R)
+         (sw : list R) (Lam : list (list R)) (e x : list R),
+  model_wf R r0 radd rmul (if two_d then N * N else N)%nat (length data) M ->
+  wf_mat (length data) L1 -> length L1 = length data ->
+  length sw = length (lmrf_diff_op R r0 r1 rmul ropp two_d b N) ->
+  sqrt_law R r0 radd rmul (length data) L1 Lam ->
+  length x = (if two_d then N * N else N)%nat ->
+  length e = length (ugla_b_tild R r0 radd rmul UglaDoc (lmrf_cfg R r0 r1 rmul ropp two_d b N M L1 data loc rs) sw) ->
+  let c := lmrf_cfg R r0 r1 rmul ropp two_d b N M L1 data loc rs in
+  (ugla_normal_eq R r0 radd rmul UglaDoc c sw e x <->
+   ugla_H_doc R r0 radd rmul c Lam sw x = vadd radd (ugla_rhs_doc R r0 radd rmul c Lam sw) (ugla_M_adj R r0 radd rmul c sw e)).
+Proof. exact (ugla_lmrf_local_gaussian R r0 r1 radd rmul rsub ropp Rth). Qed.
+
 End Ring.
 
 Print Assumptions C06_adjoint.
@@ -173,6 +197,8 @@ Print Assumptions C06_ugla_local_gaussian_documented.
 Print Assumptions C06_ugla_local_gaussian.
 Print Assumptions C06_stale_sampler_adjoint_captured.
 Print Assumptions C06_stale_sampler_adjoint.
+Print Assumptions C06_lmrf_diff_op_wf.
+Print Assumptions C06_ugla_local_gaussian_lmrf.
 
 (* Outside the guard the code does NOT draw from the documented local Gaussian (design-time defect #17, finding
    *UGLA*|location:D@loc!=0): concrete configurations over Qc with D loc <> 0, valid weight certificates, a point x
@@ -268,4 +294,17 @@ Proof.
   cbv zeta. split; [vm_compute; reflexivity|]. split.
   - apply mk_liks_wf. vm_compute. reflexivity.
   - apply qcl_eq_dec_true. vm_compute. reflexivity.
+Qed.
+
+(* non-vacuity of the LMRF instance: the 2-d operator on 2 x 2 pixels with zero boundary is the 12 x 4 matrix numpy builds,
+   and a weight certificate exists for x_k - loc = [1; 0; 0; 0], beta = 15 (rows with (D z)^2 = 1 get sw = 1/2) *)
+Example C06_lmrf_example :
+  q_lmrf_diff_op true BcZero 2 =
+    [[1; 0; 0; 0]; [- (1); 1; 0; 0]; [0; - (1); 0; 0]; [0; 0; 1; 0]; [0; 0; - (1); 1]; [0; 0; 0; - (1)];
+     [1; 0; 0; 0]; [0; 1; 0; 0]; [- (1); 0; 1; 0]; [0; - (1); 0; 1]; [0; 0; - (1); 0]; [0; 0; 0; - (1)]]%Qc /\
+  wf_mat 4 (q_lmrf_diff_op true BcZero 2).
+Proof.
+  split.
+  - apply (proj1 (list_eqb_spec qcl_eqb qcl_eq_dec_true _ _)). vm_compute. reflexivity.
+  - apply (lmrf_diff_op_wf Qc 0%Qc 1%Qc Qcmult Qcopp true BcZero 2).
 Qed.
